@@ -20,6 +20,14 @@ D = {
            "property declaration with read/write/index/default/stored inside [ ] not directly after the name, e.g. `property : [ read`"),
  "C04-2": ("C04", "multiline_strings.rs: closing line found with rsplit_once('\\n').unwrap() -> panic when the literal has only lone-CR line breaks",
            "''' literal whose line breaks are all lone CR, format_multiline_strings on"),
+ "C05-1": ("C05", "optimising_line_formatter find_optimal_child_lines_solution: with always_wrap the `else begin` case falls through to the generic else case and loses the one-level de-indent",
+           "begin_style=always_wrap and an else branch that is a begin..end block"),
+ "C05-2": ("C05", "find_optimal_child_lines_solution: prunes options whose parent line is over the limit unless they are BreakAll; `else if` / `else begin` (auto) / empty case arm have no BreakAll option -> No solution found",
+           "indentation of the else + 4 > wrap_column (deep nesting or a narrow wrap_column)"),
+ "C11-1": ("C11", "front-end make_formatter: CommentFormatter registered after the line wrapper; comments are measured before they are normalised",
+           "a trailing line comment not in normal form (no blank after //, or trailing blanks) on wrappable code with wrap_column within a column or two of the line length"),
+ "C11-2": ("C11", "multiline_strings.rs: `changed` flag overwritten per literal instead of accumulated; the re-flow is skipped when the last literal of a line is already in place",
+           "two or more multi-line literals in one logical line, the last already normalised and an earlier one not"),
  "C06-1": ("C06", "token_spacing.rs: ')' / ']' no longer fix the gap after them; `)(`, `][`, `)[` keep the input's blank count / next-line indentation",
            "postfix chain a[i][j], f(x)[0], f(x)(y) with blanks or a line break in exactly that gap"),
  "C06-2": ("C06", "parser.rs finish_logical_line: line type not reset on an empty line; `end ;` after an asm block inherits AsmInstruction and is emitted verbatim",
@@ -80,7 +88,7 @@ for d in sorted(glob.glob(os.path.join(root, "*-*"))):
     if not os.path.isdir(d):
         continue
     prop, what, needs = D.get(name, (name.split("-")[0], "see notes", "see notes"))
-    det = os.path.join(root, "..", "work", "detect", name + ".txt")
+    det = os.path.join(root, "detect", name + ".txt")
     ran = []
     if os.path.exists(os.path.join(d, "verify.log")):
         ran.append("tools/verify_seed.sh in the sub-agent's scratch worktree: demo passes on the clean tree, patch applies, "
